@@ -26,6 +26,14 @@ func VerifHarness_C08_ProductExponentIsBounded() {
 		verifrt.Reach("refused")
 		return
 	}
+	// ... and likewise a product with more than 100000 digits in front of the decimal point (digits of the coefficient
+	// plus exponent, summed over the factors - the bound the library documents for Product and Quotient): refusal is
+	// allowed there and nowhere else
+	if err != nil {
+		verifrt.Assert(errors.Is(err, system.ErrIntOverflow) && verifMagnitude(ca, ea)+verifMagnitude(cb, eb) > 100000, "product-is-refused-only-beyond-the-documented-size")
+		verifrt.Reach("refused-for-size")
+		return
+	}
 	d, isDec := got.(system.Decimal)
 	ok := err == nil && isDec
 	if ok {
@@ -33,5 +41,49 @@ func VerifHarness_C08_ProductExponentIsBounded() {
 		ok = int64(p.Exponent()) == sum && p.Coefficient().Cmp(big.NewInt(ca*cb)) == 0
 	}
 	verifrt.Assert(ok, "product-is-exact")
+	verifrt.Reach("end")
+}
+
+func verifMagnitude(c int64, e int32) int64 {
+	if c == 0 {
+		return 0
+	}
+	if c < 0 {
+		c = -c
+	}
+	digits := int64(1)
+	for c >= 10 {
+		c /= 10
+		digits++
+	}
+	return digits + int64(e)
+}
+
+// C08 / C01: a quotient whose size (digits in front of the decimal point) would leave the supported range is refused
+// like integer overflow, so that a chain of divisions by very small numbers cannot grow a value - and the cost of every
+// later operation on it - without bound; inside the range '/' is never refused for size. Exponent pairs from a menu
+// (far beyond the range, and ordinary; a quotient of 100000 digits that is *not* refused costs the solver minutes and
+// is left out), coefficients symbolic.
+func VerifHarness_C08_QuotientSizeIsBounded() {
+	ca, cb := int64(verifrt.NondetIntRange("ca", 1, 999)), int64(verifrt.NondetIntRange("cb", 1, 999))
+	which := verifrt.Choose("exponents", 7)
+	pair := [][2]int32{{100000, -100000}, {100000, -30}, {40, -100000}, {40, -30}, {0, 0}, {0, 7}, {40, 7}}[which]
+	ea, eb := pair[0], pair[1]
+	if which >= 3 {
+		// the division is carried out: concrete coefficients (a symbolic-by-symbolic division is C08_DecimalDiv's subject)
+		ca, cb = []int64{7, 999, 1}[verifrt.Choose("a", 3)], []int64{3, 1, 999}[verifrt.Choose("b", 3)]
+	}
+	a, b := system.Decimal(decimal.New(ca, ea)), system.Decimal(decimal.New(cb, eb))
+	got, err := EvaluateDiv(a, b)
+	size := verifMagnitude(ca, ea) - verifMagnitude(cb, eb)
+	if size > 100001 {
+		verifrt.Assert(errors.Is(err, system.ErrIntOverflow), "quotient-beyond-the-supported-size-is-refused")
+		verifrt.Reach("refused")
+		return
+	}
+	if size < 100000 {
+		_, isDec := got.(system.Decimal)
+		verifrt.Assert(err == nil && isDec, "quotient-within-the-supported-size-is-not-refused")
+	}
 	verifrt.Reach("end")
 }
